@@ -79,7 +79,9 @@ def run_shard(shard, ctx):
             continue
         cfg = unit['cfg']
         name = gen.cfg_str(cfg)
-        alg = gen.make_algebra(cfg)
+        alg = gen.make_or_skip(ctx, cfg)
+        if alg is None:
+            continue
         iso = Iso(alg)
         ctx.count('algebras')
         canon = tuple(alg.canon2bin.values())
